@@ -243,3 +243,29 @@ register(
                      "invocations and operations through handles issued before the copy/move/swap; distinct = distinct canonical output; non-trivial = at least one copy/move/swap and >=2 calls",
                      nontrivial=nt_copy)],
 )
+
+
+def nt_c08(feat, script, canon):
+    return nt_reent(feat, script, canon)
+
+
+register(
+    "C08",
+    lean_modules=["EventppVerif.Properties.C08", "EventppVerif.Properties.C08q", "EventppVerif.Properties.C17"],
+    fragments=["AnyDataFrag"],
+    theorems=[],
+    suites=[cl_suite("reent", 300, 8000, rule="the re-entrant callback-list programs of C02 (removal during invocation, nested invocations) and copy/move/swap histories with ledger-counted callback "
+                     "objects: after every top-level command the number of live callback objects must equal the number of attached callbacks (a removed callback is released as soon as no "
+                     "invocation stands on it), no object is destroyed twice, LeakSanitizer finds no shared_ptr cycle at exit; queue histories of C05 with ledger-counted payloads: live payloads = "
+                     "pending events after every command (cleared / dispatched / taken events are released), everything released when the queue is destroyed; distinct = distinct canonical output",
+                     nontrivial=nt_c08),
+            cl_suite("copy", 150, 4000, nontrivial=nt_copy),
+            _rq.q_suite("queue", 200, 5000, [_rq.V("single", 0, 0, 0, 0), _rq.V("multi", 1, 1, 1, 0)],
+                        [_rq.V("single", 0, 0, 0, 0), _rq.V("multi", 1, 1, 1, 0), _rq.V("spin", 0, 1, 0, 1)], nontrivial=_rq.nt_queue)],
+    level_text="Lean theorems: on the pointer model, with no traversal running exactly the live chain is reachable from head/tail (live nodes point only to live nodes), a removed node is "
+               "unreachable, moved-from / cleared objects retain nothing, clones retain exactly their fresh nodes (Properties/C08); on the queue model every slot is in exactly one list, "
+               "occupied iff it holds an event, set only on empty and cleared only on occupied slots, every event consumed exactly once (C08q, C05); AnyData ledger invariant (C17). "
+               "Correspondence: ledger-counted callbacks and payloads compared with the models after every command, ASan/LSan.",
+    level_note="shared_ptr reference counting is trusted to release exactly the unreachable acyclic garbage; that removed nodes never form cycles is argued in DESIGN (edges between removed nodes follow removal time) and watched by LeakSanitizer, not proved; exceptions are C09",
+    design_ref="5.8",
+)
